@@ -137,12 +137,12 @@ def gen_beta():
     parts.append(f"/-- name of the gravity model selected by `Sgp4Beta.MODEL` -/\ndef gravityModelName : String := \"{model}\"\n")
     ren = py2lean_ext.Rename({"self._init": "i_", "_i": "i_", "self.gravity": "g_"})
     # 2. the orbit setter -> sgp4Init
-    #    cut into: un-Kozai'd mean motion and semi-major axis | the s / q0 adjustment for low perigees | the drag and secular coefficients
+    #    cut into: un-Kozai'd mean motion and semi-major axis | the s / q0 adjustment for low perigees | C1, C3 | C4, C5 | D2-D4 | secular rates
     tr = py2lean_ext.XTr()
     tr.global_names = {"g_" + g for g in gnames}
     body = [ren.visit(st) for st in _body(setter, SKIP_INIT)]
     fields = ["i_" + f for f in INIT_FIELDS]
-    text, init_info = py2lean_ext.chunks(tr, body, ["rp", "i_θ"], ["sgp4InitKozai", "sgp4InitS", "sgp4InitCoef"], [], "sgp4Init", ELEMS,
+    text, init_info = py2lean_ext.chunks(tr, body, ["rp", "i_θ", "i_C4", "i_D2", "i_Mdot"], ["sgp4InitKozai", "sgp4InitS", "sgp4InitDrag", "sgp4InitEcc", "sgp4InitD", "sgp4InitDot"], [], "sgp4Init", ELEMS,
                                          doc=f"`Sgp4Beta.orbit` setter: the cached `_init` values in the order {', '.join(INIT_FIELDS)}",
                                          keep=fields, compose_result="[" + ", ".join(fields) + "]")
     parts.append(text)
@@ -158,7 +158,7 @@ def gen_beta():
     tr.loop_names = {id(st): "keplerLoop" for st in stmts if isinstance(st, ast.For)}
     tr.global_names = {"g_" + g for g in gnames}
     inputs = ELEMS + ["tdiff"] + ["i_" + f for f in INIT_FIELDS]
-    text, info = py2lean_ext.chunks(tr, stmts, ["Mp", "β", "ecosE", "vM"], ["sgp4Secular", "sgp4Elements", "sgp4Kepler", "sgp4Short", "sgp4Frame"], ["vector"], "sgp4Prop", inputs,
+    text, info = py2lean_ext.chunks(tr, stmts, ["Mp", "β", "Epω", "ecosE", "vM"], ["sgp4Secular", "sgp4Elements", "sgp4Long", "sgp4Kepler", "sgp4Short", "sgp4Frame"], ["vector"], "sgp4Prop", inputs,
                                     doc="`Sgp4Beta.propagate` after the date handling: elements, minutes since epoch, cached init values ↦ [x, y, z, vx, vy, vz] in m, m/s")
     parts.append(text)
     parts.append("/-- setter followed by propagate -/\ndef sgp4Beta (" + " ".join(ELEMS) + " tdiff : R) : List R :=\n  match sgp4Init " + " ".join(ELEMS) + " with\n  | ["
